@@ -117,6 +117,28 @@ impl Property for C07 {
                 }
             }
         }
+        // (2') the same for raw segments of the text that contain punctuation / unusual separators between the words:
+        // if the validator accepts the raw segment, the scanner must see exactly that one number in it
+        {
+            let widx: Vec<usize> = (0..t.len()).filter(|&i| is_word(&t[i].text)).collect();
+            for a in 0..widx.len() {
+                for b in a + 1..widx.len().min(a + 4) {
+                    let seg: String = t[widx[a]..=widx[b]].iter().map(|x| x.text.as_str()).collect();
+                    if t[widx[a]..=widx[b]].iter().all(|x| is_word(&x.text) || x.text == " ") {
+                        continue;
+                    }
+                    if let Ok(d) = text2digits(&seg, lg) {
+                        // (no ambiguity annotation, as in clause 2)
+                        let plain = tokens_of(&seg);
+                        let oo = occs(find_numbers(plain.iter(), lg, 0.0));
+                        if !(oo.len() == 1 && oo[0].text == d) {
+                            return Err(format!("the validator accepts the raw segment {:?} as {:?} but the scanner sees {:?} in it", seg, d, oo.iter().map(|x| x.text.clone()).collect::<Vec<_>>()));
+                        }
+                        obs.label("validated-raw-segment-with-separators");
+                    }
+                }
+            }
+        }
         // (3)
         if th == 0.0 {
             let mut cov = vec![false; t.len()];
